@@ -516,7 +516,7 @@ def run_chain_search_session(st, rng, res, info):
 
 def chain_gen_cases(rng, tier, scale=1.0):
     nm = int({"quick": 18, "search": 40, "thorough": 120}[tier] * scale)
-    return [{"bseed": rng.randrange(1 << 48), "count": 8 if i % 9 else 2, "mode": "hcchain", "maxn": 8000 if i % 9 else 70000} for i in range(max(nm, 3))]
+    return [{"bseed": rng.randrange(1 << 48), "count": 8 if i % 9 else 1, "mode": "hcchain", "maxn": 8000 if i % 9 else 70000} for i in range(max(nm, 3))]
 
 def chain_worker(st, ctx):
     import ctypes
